@@ -330,11 +330,15 @@ pub fn check_timeline(c: &SimCase, run: &SimRun) -> (Vec<Viol>, Stats) {
                                 } else if s.firedq.iter().flatten().any(|p| p.kind == 2 && p.bypass && p.due > t) {
                                     // the simulator has already applied a bypass-allowing block that is only due later
                                     "C16/bypass-escape/bypass-block-applied-before-due"
+                                } else if s.premature {
+                                    "C16/bypass-escape/after-premature-block-application"
                                 } else {
                                     "C16/bypass-escape/blocking-not-bypassable"
                                 }
                             } else if e.bypass && !token_ok {
                                 "C16/bypass-flag-without-bypass-padding"
+                            } else if s.premature {
+                                "C16/sent-while-blocked/after-premature-block-application"
                             } else {
                                 "C16/sent-while-blocked"
                             };
